@@ -17,6 +17,7 @@ mod asyncdev;
 mod nbdev;
 mod phyops;
 mod loraops;
+mod refops;
 
 fn dispatch(op: &str, a: &[&str]) -> String {
     match op {
@@ -55,6 +56,14 @@ fn main() {
         }
         if !toks.is_empty() && (toks[0] == "lora" || toks[0] == "lwr") {
             let r = catch_unwind(AssertUnwindSafe(|| loraops::run_line(&line)));
+            match r {
+                Ok(s) => writeln!(out, "{s}").unwrap(),
+                Err(_) => writeln!(out, "PANIC").unwrap(),
+            }
+            continue;
+        }
+        if !toks.is_empty() && toks[0] == "ref" {
+            let r = catch_unwind(AssertUnwindSafe(|| refops::run_line(&line)));
             match r {
                 Ok(s) => writeln!(out, "{s}").unwrap(),
                 Err(_) => writeln!(out, "PANIC").unwrap(),
